@@ -18,6 +18,12 @@ CHECKS = [
               "<=4-token sequences with arbitrary whitespace, non-strings and raw text. Illegal => ValueError exactly, legal => same acceptance vector "
               "as the canonical spelling and as the reference matcher, anything => builds or ValueError.",
          note="trusted: Token.legal/meaning in vf/models/dimlang.py (typed from docs); undocumented forms are checked for totality only"),
+    dict(property_id="C04", level="exploration", design_ref="DESIGN.md §5 C04",
+         technique="Hypothesis histories with targeted partial failures and injected exceptions; invariant: print_bindings transcript before == after every failed/raising check, == reference model after a pass",
+         text="Generated histories mix array checks, PyTree checks and checks that raise part-way (unbound names, user code raising Exception and "
+              "BaseException subclasses, array attributes raising on the n-th read), repeats and re-use probes; the bindings transcript is compared "
+              "with the reference model after every step. Non-trivial cases are failures after >=1 tentative binding.",
+         note="trusted: vf/models/dimlang.py, vf/models/pytree.py; array leaves only; observation through print_bindings and follow-up verdicts"),
 ]
 _pending = "check not built yet in this round (will be claimed once its machinery is committed)"
 NOT_APPLICABLE = [dict(property_id=f"C{i:02d}", reason=_pending) for i in range(1, 21)
